@@ -50,8 +50,12 @@ def _collapse_invariants(
     if invariants_dunder in namespace:
         invariants.extend(namespace[invariants_dunder])
 
-    # Change the final invariants in the namespace
-    if invariants:
+    # Change the final invariants in the namespace.
+    #
+    # The class must get a list of its own even if the list is empty. Otherwise, the class would find the (empty)
+    # list of its base through attribute look-up and an invariant decorator applied to the class would append to
+    # the list of the base, leaking the invariant to the base and all its other descendants.
+    if invariants or any(hasattr(base, invariants_dunder) for base in bases):
         namespace[invariants_dunder] = invariants
 
     # endregion
